@@ -103,10 +103,10 @@ def gen_case(rng, max_ops=8, max_meas=5, allow_pairs=True, allow_corr=True, ops=
         if allow_special and rng.random() < 0.14:
             # readings that coincide with numbers the code may treat specially
             v = rng.choice(SPECIAL_VALUES)
-        r = rng.random()
-        e = 0.0 if r < 0.12 else abs(v) * 10 ** rng.uniform(-6, -0.7)
         if vals and rng.random() < 0.15:
             v = rng.choice(vals)     # two distinct measurements with exactly the same reading
+        r = rng.random()
+        e = 0.0 if r < 0.12 else abs(v) * 10 ** rng.uniform(-6, -0.7)
         if v == 0.0:
             e = 10 ** rng.uniform(-3, -0.7)     # a reading of exactly 0 with an uncertainty
         vals.append(float(v))
